@@ -11,47 +11,47 @@ Section Restore.
   Variable req : bytes -> option (bytes * bytes * bytes).
   Variable alloc : list bytes -> bytes.
   Variable c : ps_cfg.
-  Hypothesis la_pos : 0 < cf_la c.
-  Hypothesis lt_pos : 0 < cf_lt c.
+  Hypothesis la_pos : 0 < psc_la c.
+  Hypothesis lt_pos : 0 < psc_lt c.
   Hypothesis alloc_len : forall live, len (alloc live) = PS_KEY.
 
   (* memory states whose resource names fit the counter file and whose keys are addresses *)
   Definition ps_mem_ok (m : ps_mem) : Prop :=
-    Forall (fun r => ps_name_ok (rs_name r) /\ 0 <= rs_observe r < 4294967296 /\
-                     Forall (fun s => len (su_key s) = PS_KEY) (rs_subs r)) m.
+    Forall (fun r => ps_name_ok (psr_name r) /\ 0 <= psr_observe r < 4294967296 /\
+                     Forall (fun s => len (pss_key s) = PS_KEY) (psr_subs r)) m.
 
-  Lemma ps_find_in : forall name m r, ps_find name m = Some r -> In r m /\ rs_name r = name.
+  Lemma ps_find_in : forall name m r, ps_find name m = Some r -> In r m /\ psr_name r = name.
   Proof.
     induction m as [|x m IH]; intros r H; [discriminate|]. cbn [ps_find] in H.
-    destruct (ps_beq name (rs_name x)) eqn:E.
+    destruct (ps_beq name (psr_name x)) eqn:E.
     - inversion H; subst. split; [left; reflexivity|]. symmetry. apply ps_beq_eq. exact E.
     - destruct (IH r H). split; [right; assumption|assumption].
   Qed.
 
   Lemma ps_replace_ok : forall r m,
     ps_mem_ok m ->
-    (ps_name_ok (rs_name r) /\ 0 <= rs_observe r < 4294967296 /\
-     Forall (fun s => len (su_key s) = PS_KEY) (rs_subs r)) ->
+    (ps_name_ok (psr_name r) /\ 0 <= psr_observe r < 4294967296 /\
+     Forall (fun s => len (pss_key s) = PS_KEY) (psr_subs r)) ->
     ps_mem_ok (ps_replace r m).
   Proof.
     intros r m Hm Hr. induction m as [|x m IH]; [constructor|].
-    inversion Hm; subst. cbn [ps_replace]. destruct (ps_beq (rs_name r) (rs_name x)).
+    inversion Hm; subst. cbn [ps_replace]. destruct (ps_beq (psr_name r) (psr_name x)).
     - constructor; assumption.
     - constructor; [assumption|apply IH; assumption].
   Qed.
 
   Lemma ps_drop_key_keys : forall key l,
-    Forall (fun s => len (su_key s) = PS_KEY) l ->
-    Forall (fun s => len (su_key s) = PS_KEY) (ps_drop_key key l).
+    Forall (fun s => len (pss_key s) = PS_KEY) l ->
+    Forall (fun s => len (pss_key s) = PS_KEY) (ps_drop_key key l).
   Proof.
     intros key l H. induction H; cbn [ps_drop_key]; [constructor|].
-    destruct (ps_beq key (su_key x)); [assumption|constructor; assumption].
+    destruct (ps_beq key (pss_key x)); [assumption|constructor; assumption].
   Qed.
 
   Lemma ps_find_tok_in : forall tuple token l s, ps_find_tok tuple token l = Some s -> In s l.
   Proof.
     induction l as [|x l IH]; intros s H; [discriminate|]. cbn [ps_find_tok] in H.
-    destruct (ps_beq tuple (su_tuple x) && ps_beq token (su_token x)).
+    destruct (ps_beq tuple (pss_tuple x) && ps_beq token (pss_token x)).
     - inversion H; subst. left; reflexivity.
     - right. apply IH. exact H.
   Qed.
@@ -59,27 +59,27 @@ Section Restore.
   (* coap_persist_observe_add_lkd for one stored record, as a function *)
   Definition ps_obs_step_spec (r : ps_obs) (m : ps_mem) (C : list (bytes * Z))
     : ps_mem * option bytes * list (bytes * Z) :=
-    if negb (ps_beq (ob_proto r) (cf_proto c)) then (m, None, C) else
-    if negb (ps_beq (ob_listen r) (cf_listen c)) then (m, None, C) else
-    match req (ob_pkt r) with
+    if negb (ps_beq (pso_proto r) (psc_proto c)) then (m, None, C) else
+    if negb (ps_beq (pso_listen r) (psc_listen c)) then (m, None, C) else
+    match req (pso_pkt r) with
     | None => (m, None, C)
     | Some (name, token, ck) =>
         match ps_find name m with
         | None => (m, None, C)
         | Some rs =>
-            if negb (rs_observable rs) then (m, None, C) else
-            match ps_find_tok (ob_tuple r) token (rs_subs rs) with
-            | Some s => (m, Some (su_key s), C)
+            if negb (psr_observable rs) then (m, None, C) else
+            match ps_find_tok (pso_tuple r) token (psr_subs rs) with
+            | Some s => (m, Some (pss_key s), C)
             | None =>
-                let subs1 := match ps_find_ck (ob_tuple r) ck (rs_subs rs) with
-                             | Some o => ps_drop_key (su_key o) (rs_subs rs)
-                             | None => rs_subs rs
+                let subs1 := match ps_find_ck (pso_tuple r) ck (psr_subs rs) with
+                             | Some o => ps_drop_key (pss_key o) (psr_subs rs)
+                             | None => psr_subs rs
                              end in
-                let m1 := ps_replace (mkRsrc name true (rs_observe rs) subs1) m in
-                let s := mkSub (alloc (ps_live m1)) (ob_tuple r) token ck (ob_pkt r) in
-                let m2 := ps_replace (mkRsrc name true (rs_observe rs) (s :: subs1)) m in
-                (m2, Some (su_key s),
-                 if cf_cnt c then ps_cnt_without name C ++ [(name, rs_observe rs)] else C)
+                let m1 := ps_replace (mkRsrc name true (psr_observe rs) subs1) m in
+                let s := mkSub (alloc (ps_live m1)) (pso_tuple r) token ck (pso_pkt r) in
+                let m2 := ps_replace (mkRsrc name true (psr_observe rs) (s :: subs1)) m in
+                (m2, Some (pss_key s),
+                 if psc_cnt c then ps_cnt_without name C ++ [(name, psr_observe rs)] else C)
             end
         end
     end.
@@ -97,7 +97,7 @@ Section Restore.
   Qed.
 
   Theorem ps_obs_step_ok : forall cmax,
-    (cmax <= cf_fuel c)%nat ->
+    (cmax <= psc_fuel c)%nat ->
     ps_step_ok pol ps_mem (ps_obs_step req alloc c) ps_obs_step_spec ps_mem_ok cmax.
   Proof.
     intros cmax Hcm r m C s Hok Hwfh HC Hlen Hcnt.
@@ -112,35 +112,35 @@ Section Restore.
     { intros key Hk. exists s. cbn [ps_run]. repeat split; try assumption; try lia; try reflexivity.
       all: try (apply Hcnt). }
     unfold ps_obs_step, ps_obs_step_spec.
-    destruct (negb (ps_beq (ob_proto r) (cf_proto c))); [apply Same; intros; discriminate|].
-    destruct (negb (ps_beq (ob_listen r) (cf_listen c))); [apply Same; intros; discriminate|].
-    destruct (req (ob_pkt r)) as [[[name token] ck]|]; [|apply Same; intros; discriminate].
+    destruct (negb (ps_beq (pso_proto r) (psc_proto c))); [apply Same; intros; discriminate|].
+    destruct (negb (ps_beq (pso_listen r) (psc_listen c))); [apply Same; intros; discriminate|].
+    destruct (req (pso_pkt r)) as [[[name token] ck]|]; [|apply Same; intros; discriminate].
     destruct (ps_find name m) as [rs|] eqn:Ef; [|apply Same; intros; discriminate].
-    destruct (negb (rs_observable rs)); [apply Same; intros; discriminate|].
+    destruct (negb (psr_observable rs)); [apply Same; intros; discriminate|].
     destruct (ps_find_in _ _ _ Ef) as [Hin Hname].
     unfold ps_mem_ok in Hok. rewrite Forall_forall in Hok.
     destruct (Hok rs Hin) as (Hnok & Hobs & Hkeys). rewrite Hname in Hnok.
-    destruct (ps_find_tok (ob_tuple r) token (rs_subs rs)) as [s0|] eqn:Et.
+    destruct (ps_find_tok (pso_tuple r) token (psr_subs rs)) as [s0|] eqn:Et.
     - cbn [fst snd]. apply Same. intros k E. inversion E; subst.
       rewrite Forall_forall in Hkeys. apply Hkeys. eapply ps_find_tok_in. exact Et.
-    - set (subs1 := match ps_find_ck (ob_tuple r) ck (rs_subs rs) with
-                    | Some o => ps_drop_key (su_key o) (rs_subs rs)
-                    | None => rs_subs rs
+    - set (subs1 := match ps_find_ck (pso_tuple r) ck (psr_subs rs) with
+                    | Some o => ps_drop_key (pss_key o) (psr_subs rs)
+                    | None => psr_subs rs
                     end).
-      set (m1 := ps_replace (mkRsrc name true (rs_observe rs) subs1) m).
-      set (sn := mkSub (alloc (ps_live m1)) (ob_tuple r) token ck (ob_pkt r)).
-      set (m2 := ps_replace (mkRsrc name true (rs_observe rs) (sn :: subs1)) m).
-      assert (Hsubs1 : Forall (fun s => len (su_key s) = PS_KEY) subs1).
-      { subst subs1. destruct (ps_find_ck (ob_tuple r) ck (rs_subs rs));
+      set (m1 := ps_replace (mkRsrc name true (psr_observe rs) subs1) m).
+      set (sn := mkSub (alloc (ps_live m1)) (pso_tuple r) token ck (pso_pkt r)).
+      set (m2 := ps_replace (mkRsrc name true (psr_observe rs) (sn :: subs1)) m).
+      assert (Hsubs1 : Forall (fun s => len (pss_key s) = PS_KEY) subs1).
+      { subst subs1. destruct (ps_find_ck (pso_tuple r) ck (psr_subs rs));
           [apply ps_drop_key_keys|]; exact Hkeys. }
       assert (Hok2 : ps_mem_ok m2).
       { apply ps_replace_ok; [unfold ps_mem_ok; rewrite Forall_forall; exact Hok|].
-        cbn [rs_name rs_observe rs_subs]. split; [exact Hnok|]. split; [exact Hobs|].
+        cbn [psr_name psr_observe psr_subs]. split; [exact Hnok|]. split; [exact Hobs|].
         constructor; [apply alloc_len|exact Hsubs1]. }
-      cbn [fst snd su_key].
-      destruct (cf_cnt c) eqn:Ecnt.
+      cbn [fst snd pss_key].
+      destruct (psc_cnt c) eqn:Ecnt.
       + rewrite ps_run_bind.
-        destruct (ps_cnt_track_frame pol (cf_fuel c) name (rs_observe rs) C s Hwfh HC ltac:(lia) Hcnt)
+        destruct (ps_cnt_track_frame pol (psc_fuel c) name (psr_observe rs) C s Hwfh HC ltac:(lia) Hcnt)
           as (s' & Hr & Hv & Hwfh' & Hn' & Hg' & Hf').
         rewrite Hr. cbn [ps_run]. exists s'. split; [reflexivity|]. split; [exact Hok2|].
         split; [apply Forall_app; split; [apply ps_cnt_without_wf; exact HC|]|].
@@ -157,7 +157,7 @@ Section Restore.
 
   Lemma ps_obs_load_missing : forall (St : Type) fuel (step : ps_obs -> St -> ps_prog (St * option bytes)) st s,
     ps_view s PS_OBS = None ->
-    ps_run pol (ps_obs_load (cf_la c) (cf_lt c) fuel step st) s = (Some st, s).
+    ps_run pol (ps_obs_load (psc_la c) (psc_lt c) fuel step st) s = (Some st, s).
   Proof.
     intros St fuel step st s Hv. unfold ps_obs_load, ps_open. cbn [ps_run].
     rewrite (ps_open_r_none pol s (PsBase PS_OBS) Hv). reflexivity.
@@ -169,24 +169,24 @@ Section Restore.
   Definition ps_restored_mem (m0 : ps_mem) (D : list ps_dyn) (O : list ps_obs) (C : list (bytes * Z))
     : ps_mem :=
     let m1 := ps_dyn_fold (ps_dyn_step app) D m0 in
-    let m2 := ps_set_counts (ps_rounded (cf_freq c) C) m1 in
+    let m2 := ps_set_counts (ps_rounded (psc_freq c) C) m1 in
     fst (fst (ps_obs_fold ps_mem ps_obs_step_spec O m2 C)).
 
   Definition ps_restored_obs (m0 : ps_mem) (D : list ps_dyn) (O : list ps_obs) (C : list (bytes * Z))
     : list ps_obs :=
     let m1 := ps_dyn_fold (ps_dyn_step app) D m0 in
-    let m2 := ps_set_counts (ps_rounded (cf_freq c) C) m1 in
+    let m2 := ps_set_counts (ps_rounded (psc_freq c) C) m1 in
     snd (fst (ps_obs_fold ps_mem ps_obs_step_spec O m2 C)).
 
   Theorem ps_startup_restores : forall m0 D O C fs,
-    cf_dyn c = true -> cf_obs c = true -> cf_cnt c = true -> cf_unknown c = true ->
-    Forall ps_dyn_wf D -> Forall (ps_obs_wf (cf_la c) (cf_lt c)) O -> Forall ps_cnt_wf C ->
-    (length D < cf_fuel c)%nat -> (length O < cf_fuel c)%nat ->
-    (length C + length O < cf_fuel c)%nat ->
+    psc_dyn c = true -> psc_obs c = true -> psc_cnt c = true -> psc_unknown c = true ->
+    Forall ps_dyn_wf D -> Forall (ps_obs_wf (psc_la c) (psc_lt c)) O -> Forall ps_cnt_wf C ->
+    (length D < psc_fuel c)%nat -> (length O < psc_fuel c)%nat ->
+    (length C + length O < psc_fuel c)%nat ->
     ps_holds ps_dyn_file (ps_view (ps_boot fs) PS_DYN) D ->
     ps_view (ps_boot fs) PS_OBS = Some (ps_obs_file O) ->
     ps_holds ps_cnt_file (ps_view (ps_boot fs) PS_CNT) C ->
-    ps_mem_ok (ps_set_counts (ps_rounded (cf_freq c) C) (ps_dyn_fold (ps_dyn_step app) D m0)) ->
+    ps_mem_ok (ps_set_counts (ps_rounded (psc_freq c) C) (ps_dyn_fold (ps_dyn_step app) D m0)) ->
     exists s',
       ps_run pol (ps_startup app req alloc c m0) (ps_boot fs) = (Some (ps_restored_mem m0 D O C), s') /\
       ps_view s' PS_OBS = Some (ps_obs_file (ps_restored_obs m0 D O C)) /\
@@ -195,25 +195,25 @@ Section Restore.
     intros m0 D O C fs Hd Ho Hc Hu HD HO HC HlD HlO HlCO HvD HvO HvC Hok.
     unfold ps_startup. rewrite Hd, Hu, Hc, Ho. cbn [andb].
     rewrite ps_run_bind.
-    destruct (ps_dyn_load_correct pol ps_mem (ps_dyn_step app) (cf_fuel c) D m0 (ps_boot fs) HD HlD HvD)
+    destruct (ps_dyn_load_correct pol ps_mem (ps_dyn_step app) (psc_fuel c) D m0 (ps_boot fs) HD HlD HvD)
       as (s1 & Hr1 & Hf1 & Hn1 & Hg1).
     rewrite Hr1. rewrite ps_run_bind.
     assert (HV1 : forall i, ps_view s1 i = ps_view (ps_boot fs) i) by (apply ps_view_files; exact Hf1).
     assert (HvC1 : ps_holds ps_cnt_file (ps_view s1 PS_CNT) C) by (rewrite HV1; exact HvC).
-    destruct (ps_cnt_load_correct pol (cf_fuel c) (cf_freq c) C s1 HC ltac:(lia) HvC1)
+    destruct (ps_cnt_load_correct pol (psc_fuel c) (psc_freq c) C s1 HC ltac:(lia) HvC1)
       as (s2 & Hr2 & Hf2 & Hn2 & Hg2).
     rewrite Hr2.
     assert (HV2 : forall i, ps_view s2 i = ps_view (ps_boot fs) i).
     { intro i. rewrite <- HV1. apply ps_view_files. exact Hf2. }
     assert (Hwfh2 : ps_wfh s2).
-    { pose proof (ps_wfh_run pol _ (ps_dyn_load (cf_fuel c) (ps_dyn_step app) m0) (ps_boot fs)
+    { pose proof (ps_wfh_run pol _ (ps_dyn_load (psc_fuel c) (ps_dyn_step app) m0) (ps_boot fs)
                              (ps_wfh_boot fs)) as X1. rewrite Hr1 in X1.
-      pose proof (ps_wfh_run pol _ (ps_cnt_load (cf_fuel c) (cf_freq c)) s1 X1) as X2.
+      pose proof (ps_wfh_run pol _ (ps_cnt_load (psc_fuel c) (psc_freq c)) s1 X1) as X2.
       rewrite Hr2 in X2. exact X2. }
-    destruct (ps_obs_load_correct pol ps_mem (cf_la c) (cf_lt c) la_pos lt_pos
-                (ps_obs_step req alloc c) ps_obs_step_spec ps_mem_ok (cf_fuel c)
-                (ps_obs_step_ok (cf_fuel c) (le_n _)) (cf_fuel c) O C
-                (ps_set_counts (ps_rounded (cf_freq c) C) (ps_dyn_fold (ps_dyn_step app) D m0)) s2)
+    destruct (ps_obs_load_correct pol ps_mem (psc_la c) (psc_lt c) la_pos lt_pos
+                (ps_obs_step req alloc c) ps_obs_step_spec ps_mem_ok (psc_fuel c)
+                (ps_obs_step_ok (psc_fuel c) (le_n _)) (psc_fuel c) O C
+                (ps_set_counts (ps_rounded (psc_freq c) C) (ps_dyn_fold (ps_dyn_step app) D m0)) s2)
       as (s3 & Hr3 & Hv3 & _ & Hd3 & _); try assumption.
     - rewrite HV2. exact HvO.
     - rewrite HV2. exact HvC.
@@ -225,11 +225,11 @@ Section Restore.
   Lemma ps_find_app : forall name m x,
     ps_find name (m ++ [x]) = match ps_find name m with
                               | Some r => Some r
-                              | None => if ps_beq name (rs_name x) then Some x else None
+                              | None => if ps_beq name (psr_name x) then Some x else None
                               end.
   Proof.
     induction m as [|y m IH]; intro x; cbn [List.app ps_find]; [reflexivity|].
-    destruct (ps_beq name (rs_name y)); [reflexivity|apply IH].
+    destruct (ps_beq name (psr_name y)); [reflexivity|apply IH].
   Qed.
 
   Definition ps_has (m : ps_mem) (name : bytes) : Prop := ps_find name m <> None.
@@ -238,8 +238,8 @@ Section Restore.
     forall n, ps_has m n -> ps_has m' n.
   Proof.
     intros d m m' H n Hn. unfold ps_dyn_step in H.
-    destruct (ps_find (dy_name d) m); [inversion H; subst; exact Hn|].
-    destruct (app (dy_pkt d)) as [[name o]|]; [|discriminate].
+    destruct (ps_find (psd_name d) m); [inversion H; subst; exact Hn|].
+    destruct (app (psd_pkt d)) as [[name o]|]; [|discriminate].
     destruct (ps_find name m); inversion H; subst; [exact Hn|].
     unfold ps_has in *. rewrite ps_find_app. destruct (ps_find n m); [discriminate|contradiction].
   Qed.
@@ -252,14 +252,14 @@ Section Restore.
   Qed.
 
   Theorem ps_dyn_restored : forall D m0,
-    (forall d, In d D -> exists o, app (dy_pkt d) = Some (dy_name d, o)) ->
-    forall d, In d D -> ps_has (ps_dyn_fold (ps_dyn_step app) D m0) (dy_name d).
+    (forall d, In d D -> exists o, app (psd_pkt d) = Some (psd_name d, o)) ->
+    forall d, In d D -> ps_has (ps_dyn_fold (ps_dyn_step app) D m0) (psd_name d).
   Proof.
     induction D as [|d0 D IH]; intros m0 Happ d Hin; [contradiction|].
     cbn [ps_dyn_fold].
     destruct (Happ d0 (or_introl eq_refl)) as [o Ho].
-    assert (Hstep : exists m', ps_dyn_step app d0 m0 = Some m' /\ ps_has m' (dy_name d0)).
-    { unfold ps_dyn_step. destruct (ps_find (dy_name d0) m0) eqn:Ef.
+    assert (Hstep : exists m', ps_dyn_step app d0 m0 = Some m' /\ ps_has m' (psd_name d0)).
+    { unfold ps_dyn_step. destruct (ps_find (psd_name d0) m0) eqn:Ef.
       - eexists. split; [reflexivity|]. unfold ps_has. rewrite Ef. discriminate.
       - rewrite Ho, Ef. eexists. split; [reflexivity|]. unfold ps_has. rewrite ps_find_app, Ef.
         rewrite ps_beq_refl. discriminate. }
@@ -274,10 +274,10 @@ Section Restore.
     ps_has (ps_replace r m) n <-> ps_has m n.
   Proof.
     intros r m n. unfold ps_has. induction m as [|x m IH]; cbn [ps_replace ps_find]; [tauto|].
-    destruct (ps_beq (rs_name r) (rs_name x)) eqn:E.
+    destruct (ps_beq (psr_name r) (psr_name x)) eqn:E.
     - apply ps_beq_eq in E. cbn [ps_find]. rewrite E.
-      destruct (ps_beq n (rs_name x)); [split; intros; discriminate|tauto].
-    - cbn [ps_find]. destruct (ps_beq n (rs_name x)); [tauto|exact IH].
+      destruct (ps_beq n (psr_name x)); [split; intros; discriminate|tauto].
+    - cbn [ps_find]. destruct (ps_beq n (psr_name x)); [tauto|exact IH].
   Qed.
 
   Lemma ps_set_counts_has : forall l m n, ps_has (ps_set_counts l m) n <-> ps_has m n.
@@ -307,19 +307,19 @@ Section Restore.
 
   (* C17_restart_restores, resources: *)
   Theorem ps_restored_has_dyn : forall m0 D O C,
-    (forall d, In d D -> exists o, app (dy_pkt d) = Some (dy_name d, o)) ->
-    forall d, In d D -> ps_has (ps_restored_mem m0 D O C) (dy_name d).
+    (forall d, In d D -> exists o, app (psd_pkt d) = Some (psd_name d, o)) ->
+    forall d, In d D -> ps_has (ps_restored_mem m0 D O C) (psd_name d).
   Proof.
     intros m0 D O C Happ d Hin. unfold ps_restored_mem.
     apply ps_obs_fold_has. apply ps_set_counts_has. apply ps_dyn_restored; assumption.
   Qed.
 
   Lemma ps_find_replace_same : forall new m name rs,
-    rs_name new = name -> ps_find name m = Some rs -> ps_find name (ps_replace new m) = Some new.
+    psr_name new = name -> ps_find name m = Some rs -> ps_find name (ps_replace new m) = Some new.
   Proof.
     intros new m name rs Hn. induction m as [|x m IH]; intro Hf; [discriminate|].
     cbn [ps_find] in Hf. cbn [ps_replace]. rewrite Hn.
-    destruct (ps_beq name (rs_name x)) eqn:E.
+    destruct (ps_beq name (psr_name x)) eqn:E.
     - cbn [ps_find]. rewrite Hn, ps_beq_refl. reflexivity.
     - cbn [ps_find]. rewrite E. apply IH. exact Hf.
   Qed.
@@ -329,80 +329,80 @@ Section Restore.
      token and cache key heads that resource's list (or the one already there is kept) and the
      record is written back under the subscription's key *)
   Theorem ps_obs_step_accepts : forall r m C name token ck rs,
-    ps_beq (ob_proto r) (cf_proto c) = true -> ps_beq (ob_listen r) (cf_listen c) = true ->
-    req (ob_pkt r) = Some (name, token, ck) -> ps_find name m = Some rs -> rs_observable rs = true ->
+    ps_beq (pso_proto r) (psc_proto c) = true -> ps_beq (pso_listen r) (psc_listen c) = true ->
+    req (pso_pkt r) = Some (name, token, ck) -> ps_find name m = Some rs -> psr_observable rs = true ->
     exists key, snd (fst (ps_obs_step_spec r m C)) = Some key /\
       exists rs' s, ps_find name (fst (fst (ps_obs_step_spec r m C))) = Some rs' /\
-        In s (rs_subs rs') /\ su_key s = key /\ su_tuple s = ob_tuple r /\ su_token s = token.
+        In s (psr_subs rs') /\ pss_key s = key /\ pss_tuple s = pso_tuple r /\ pss_token s = token.
   Proof.
     intros r m C name token ck rs Hp Hl Hreq Hf Hobs. unfold ps_obs_step_spec.
     rewrite Hp, Hl, Hreq, Hf, Hobs. cbn [negb].
-    destruct (ps_find_tok (ob_tuple r) token (rs_subs rs)) as [s0|] eqn:Et.
-    - cbn [fst snd]. exists (su_key s0). split; [reflexivity|]. exists rs, s0.
+    destruct (ps_find_tok (pso_tuple r) token (psr_subs rs)) as [s0|] eqn:Et.
+    - cbn [fst snd]. exists (pss_key s0). split; [reflexivity|]. exists rs, s0.
       split; [exact Hf|]. split; [eapply ps_find_tok_in; exact Et|]. split; [reflexivity|].
-      clear -Et. induction (rs_subs rs) as [|x l IH]; [discriminate|]. cbn [ps_find_tok] in Et.
-      destruct (ps_beq (ob_tuple r) (su_tuple x) && ps_beq token (su_token x)) eqn:E.
+      clear -Et. induction (psr_subs rs) as [|x l IH]; [discriminate|]. cbn [ps_find_tok] in Et.
+      destruct (ps_beq (pso_tuple r) (pss_tuple x) && ps_beq token (pss_token x)) eqn:E.
       + inversion Et; subst. apply andb_true_iff in E. destruct E as [E1 E2].
         apply ps_beq_eq in E1. apply ps_beq_eq in E2. split; congruence.
       + apply IH. exact Et.
-    - cbn [fst snd su_key]. eexists. split; [reflexivity|].
+    - cbn [fst snd pss_key]. eexists. split; [reflexivity|].
       match goal with |- context [ps_replace ?x m] => set (new := x) end.
       assert (Hfind : ps_find name (ps_replace new m) = Some new).
       { apply (ps_find_replace_same new m name rs); [reflexivity|exact Hf]. }
       exists new. eexists. split; [exact Hfind|].
-      split; [left; reflexivity|]. cbn [su_key su_tuple su_token]. repeat split; reflexivity.
+      split; [left; reflexivity|]. cbn [pss_key pss_tuple pss_token]. repeat split; reflexivity.
   Qed.
 
   (* -------------------------------------------------------------- observations survive *)
   (* what a record asks for *)
   Definition ps_ktok (r : ps_obs) : option (bytes * bytes * bytes) :=
-    match req (ob_pkt r) with Some (n, t, _) => Some (n, ob_tuple r, t) | None => None end.
+    match req (pso_pkt r) with Some (n, t, _) => Some (n, pso_tuple r, t) | None => None end.
   Definition ps_kck (r : ps_obs) : option (bytes * bytes * bytes) :=
-    match req (ob_pkt r) with Some (n, _, k) => Some (n, ob_tuple r, k) | None => None end.
+    match req (pso_pkt r) with Some (n, _, k) => Some (n, pso_tuple r, k) | None => None end.
 
   Definition ps_acceptable (m : ps_mem) (r : ps_obs) : Prop :=
-    ps_beq (ob_proto r) (cf_proto c) = true /\ ps_beq (ob_listen r) (cf_listen c) = true /\
-    exists name token ck rs, req (ob_pkt r) = Some (name, token, ck) /\
-      ps_find name m = Some rs /\ rs_observable rs = true.
+    ps_beq (pso_proto r) (psc_proto c) = true /\ ps_beq (pso_listen r) (psc_listen c) = true /\
+    exists name token ck rs, req (pso_pkt r) = Some (name, token, ck) /\
+      ps_find name m = Some rs /\ psr_observable rs = true.
 
   (* the observation of record r is established in m *)
   Definition ps_present (m : ps_mem) (r : ps_obs) : Prop :=
-    exists name token ck rs s, req (ob_pkt r) = Some (name, token, ck) /\
-      ps_find name m = Some rs /\ In s (rs_subs rs) /\
-      su_tuple s = ob_tuple r /\ su_token s = token /\ su_ck s = ck /\ su_pkt s = ob_pkt r.
+    exists name token ck rs s, req (pso_pkt r) = Some (name, token, ck) /\
+      ps_find name m = Some rs /\ In s (psr_subs rs) /\
+      pss_tuple s = pso_tuple r /\ pss_token s = token /\ pss_ck s = ck /\ pss_pkt s = pso_pkt r.
 
   (* every subscription in m was made for one of the records in [done] *)
   Definition ps_from (m : ps_mem) (done : list ps_obs) : Prop :=
-    forall n rs s, ps_find n m = Some rs -> In s (rs_subs rs) ->
-      exists r, In r done /\ ps_ktok r = Some (n, su_tuple s, su_token s) /\
-                ps_kck r = Some (n, su_tuple s, su_ck s).
+    forall n rs s, ps_find n m = Some rs -> In s (psr_subs rs) ->
+      exists r, In r done /\ ps_ktok r = Some (n, pss_tuple s, pss_token s) /\
+                ps_kck r = Some (n, pss_tuple s, pss_ck s).
 
   Lemma ps_find_replace_other : forall new m n,
-    ps_beq n (rs_name new) = false -> ps_find n (ps_replace new m) = ps_find n m.
+    ps_beq n (psr_name new) = false -> ps_find n (ps_replace new m) = ps_find n m.
   Proof.
     intros new m n Hn. induction m as [|x m IH]; [reflexivity|]. cbn [ps_replace].
-    destruct (ps_beq (rs_name new) (rs_name x)) eqn:E.
+    destruct (ps_beq (psr_name new) (psr_name x)) eqn:E.
     - apply ps_beq_eq in E. cbn [ps_find]. rewrite <- E, Hn. reflexivity.
-    - cbn [ps_find]. destruct (ps_beq n (rs_name x)); [reflexivity|exact IH].
+    - cbn [ps_find]. destruct (ps_beq n (psr_name x)); [reflexivity|exact IH].
   Qed.
 
   Lemma ps_find_tok_none : forall tuple token l,
-    (forall s, In s l -> ~ (su_tuple s = tuple /\ su_token s = token)) ->
+    (forall s, In s l -> ~ (pss_tuple s = tuple /\ pss_token s = token)) ->
     ps_find_tok tuple token l = None.
   Proof.
     induction l as [|x l IH]; intro H; [reflexivity|]. cbn [ps_find_tok].
-    destruct (ps_beq tuple (su_tuple x) && ps_beq token (su_token x)) eqn:E.
+    destruct (ps_beq tuple (pss_tuple x) && ps_beq token (pss_token x)) eqn:E.
     - apply andb_true_iff in E. destruct E as [E1 E2]. apply ps_beq_eq in E1. apply ps_beq_eq in E2.
       exfalso. apply (H x (or_introl eq_refl)). split; congruence.
     - apply IH. intros s Hs. apply H. right. exact Hs.
   Qed.
 
   Lemma ps_find_ck_none : forall tuple ck l,
-    (forall s, In s l -> ~ (su_tuple s = tuple /\ su_ck s = ck)) ->
+    (forall s, In s l -> ~ (pss_tuple s = tuple /\ pss_ck s = ck)) ->
     ps_find_ck tuple ck l = None.
   Proof.
     induction l as [|x l IH]; intro H; [reflexivity|]. cbn [ps_find_ck].
-    destruct (ps_beq tuple (su_tuple x) && ps_beq ck (su_ck x)) eqn:E.
+    destruct (ps_beq tuple (pss_tuple x) && ps_beq ck (pss_ck x)) eqn:E.
     - apply andb_true_iff in E. destruct E as [E1 E2]. apply ps_beq_eq in E1. apply ps_beq_eq in E2.
       exfalso. apply (H x (or_introl eq_refl)). split; congruence.
     - apply IH. intros s Hs. apply H. right. exact Hs.
@@ -419,24 +419,24 @@ Section Restore.
     (forall r', ps_acceptable m r' -> ps_acceptable m' r').
   Proof.
     intros r m C done (Hp & Hl & name & token & ck & rs & Hreq & Hf & Hobs) Hfrom Hd.
-    assert (Hkt : ps_ktok r = Some (name, ob_tuple r, token)) by (unfold ps_ktok; rewrite Hreq; reflexivity).
-    assert (Hkc : ps_kck r = Some (name, ob_tuple r, ck)) by (unfold ps_kck; rewrite Hreq; reflexivity).
-    assert (Ht : ps_find_tok (ob_tuple r) token (rs_subs rs) = None).
+    assert (Hkt : ps_ktok r = Some (name, pso_tuple r, token)) by (unfold ps_ktok; rewrite Hreq; reflexivity).
+    assert (Hkc : ps_kck r = Some (name, pso_tuple r, ck)) by (unfold ps_kck; rewrite Hreq; reflexivity).
+    assert (Ht : ps_find_tok (pso_tuple r) token (psr_subs rs) = None).
     { apply ps_find_tok_none. intros s Hs [E1 E2].
       destruct (Hfrom name rs s Hf Hs) as (r0 & Hin & Hk1 & _).
       destruct (Hd r0 Hin) as [Hne _]. apply Hne. rewrite Hk1, Hkt, E1, E2. reflexivity. }
-    assert (Hc : ps_find_ck (ob_tuple r) ck (rs_subs rs) = None).
+    assert (Hc : ps_find_ck (pso_tuple r) ck (psr_subs rs) = None).
     { apply ps_find_ck_none. intros s Hs [E1 E2].
       destruct (Hfrom name rs s Hf Hs) as (r0 & Hin & _ & Hk2).
       destruct (Hd r0 Hin) as [_ Hne]. apply Hne. rewrite Hk2, Hkc, E1, E2. reflexivity. }
     unfold ps_obs_step_spec. rewrite Hp, Hl, Hreq, Hf, Hobs, Ht, Hc. cbn [negb fst snd].
     match goal with |- context [ps_replace ?x m] => set (new := x) end.
-    set (sn := mkSub (alloc (ps_live (ps_replace (mkRsrc name true (rs_observe rs) (rs_subs rs)) m)))
-                     (ob_tuple r) token ck (ob_pkt r)) in *.
+    set (sn := mkSub (alloc (ps_live (ps_replace (mkRsrc name true (psr_observe rs) (psr_subs rs)) m)))
+                     (pso_tuple r) token ck (pso_pkt r)) in *.
     assert (Hnew : ps_find name (ps_replace new m) = Some new)
       by (apply (ps_find_replace_same new m name rs); [reflexivity|exact Hf]).
     assert (Hother : forall n, n <> name -> ps_find n (ps_replace new m) = ps_find n m).
-    { intros n Hn. apply ps_find_replace_other. change (rs_name new) with name.
+    { intros n Hn. apply ps_find_replace_other. change (psr_name new) with name.
       destruct (ps_beq n name) eqn:E; [apply ps_beq_eq in E; contradiction|reflexivity]. }
     split; [|split; [|split]].
     - exists name, token, ck, new, sn. split; [exact Hreq|]. split; [exact Hnew|].
@@ -497,8 +497,8 @@ Section Restore.
      token) and in (resource, session, cache key) - which coap_add_observer guarantees for the
      subscriptions it keeps *)
   Theorem ps_restored_observations : forall m0 D O C,
-    let m2 := ps_set_counts (ps_rounded (cf_freq c) C) (ps_dyn_fold (ps_dyn_step app) D m0) in
-    (forall n rs, ps_find n m2 = Some rs -> rs_subs rs = []) ->
+    let m2 := ps_set_counts (ps_rounded (psc_freq c) C) (ps_dyn_fold (ps_dyn_step app) D m0) in
+    (forall n rs, ps_find n m2 = Some rs -> psr_subs rs = []) ->
     (forall r, In r O -> ps_acceptable m2 r) ->
     NoDup (map ps_ktok O) -> NoDup (map ps_kck O) ->
     forall r, In r O -> ps_present (ps_restored_mem m0 D O C) r.
